@@ -31,11 +31,18 @@ Proof.
   - eexists. split; [vm_compute; reflexivity|]. split; [cbn; tauto|reflexivity].
 Qed.
 
+(* d = {'self': d, 's': {4, 5}, 'l': [d]} *)
+Definition ex_copy : obj :=
+  ONode 0 KDict [(KT 0, ORef 0 KDict); (KT 1, ONode 1 KSet [(KI 0, OLeaf 4); (KI 1, OLeaf 5)]);
+                 (KT 2, ONode 2 KList [(KI 0, ORef 0 KDict)])].
 Lemma ex_copy_ok :
-  NoDup (ids ex_cyclic) /\ wf_keys ex_cyclic /\ no_sets ex_cyclic /\ imm_backref [] ex_cyclic = false.
+  NoDup (ids ex_copy) /\ wf_keys ex_copy /\ no_sets ex_copy /\ imm_backref [] ex_copy = false.
 Proof.
   split; [cbn; repeat constructor; cbn; intuition discriminate|].
-  split; [exact (proj1 ex_paths_ok)|]. split; [cbn; tauto|reflexivity].
+  split; [cbn; repeat split; try reflexivity; repeat constructor; cbn; intuition discriminate|].
+  split; [|reflexivity].
+  cbn. repeat split; try discriminate; try (intros _); repeat constructor; cbn; try exact I;
+    try (intros z [<-|[]]; cbn; discriminate); intros z [].
 Qed.
 
 (* t = (5,); [t, t] *)
